@@ -21,3 +21,16 @@ func init() {
 		Assume: []string{"refsm3 equals GM/T 0004 (cross-checked against OpenSSL 3.5.6)"},
 	}
 }
+
+func init() {
+	realAll := []string{"all gmsm code involved in the scenario: a scratch copy of /repo's working tree, instrumented by /verif/rewrite (locks, once, atomics, time.Now), built for this run"}
+	props["C06"] = propCfg{
+		Level: "exploration",
+		Quick: tierCfg{Runs: 12000, Deadline: 70, RunMS: 60000, MinimiseS: 40},
+		Thor:  tierCfg{Runs: 3000000, Deadline: 1500, RunMS: 60000, MinimiseS: 240},
+		Rule:  "each run draws one configuration (server mode x client protocol x suite lists and preference x versions x ClientAuth x client certificate x certificate source x tickets x record sizing x verification setting), payloads 0..200 KiB per direction with drawn write fragments and read buffers, a benign network (segmentation, latency, jitter, short reads, finite windows, read-deadline retries) and a scheduling policy; client and server (real gmtls; stdlib crypto/tls as third implementation on the TLS path) run as tasks over simnet. Oracles: policy model (Appendix A), agreement of both ends, exported keying material, byte streams, independent wire decode. distinct_nontrivial = distinct run signatures (hash of the full parameter vector, network configuration and negotiated outcome).",
+		Real:  realAll,
+		Stubs: []string{"simnet (network)", "virtual clock", "entropy streams (Config.Rand)", "fixture PKI (OpenSSL-generated)", "stdlib crypto/tls peer (TLS path)", "reftls wire decoder (GMSSL path)"},
+		Assume: []string{"policy model encodes only what Config's documentation and GM/T 0024 / RFC 5246 state; ambiguous combinations are 'unspecified'", "reference primitives validated against OpenSSL 3.5.6"},
+	}
+}
